@@ -40,6 +40,8 @@ CONSTANTS
   ResetOnPartialAt,        \* late Partial.at resets the memo first
   ResetOnNumericPartials,  \* Expression._numeric_partials resets the memo first
   EarlyChecksOriginal,     \* the symbolic path of Partial.at / Differential.at evaluates the original first
+  ResetAfterWalk,          \* MUTANT when TRUE: Expression.at clears the memo AFTER a successful walk instead of before it, so a walk
+                           \* that raises leaves its partial results behind (seed C01_r3mut1)
   MaxHist                  \* bound on the exported history length (0 = do not record)
 
 VARIABLES memo, synth, last, hist
@@ -64,7 +66,9 @@ SynthFw == [r \in Roots |-> [v \in QVars \cup {"whatever"} |-> PartialAsExpr(Tre
 SynthRv == [r \in Roots |-> EarlyDifferentialPartials(Tree(r), 1000)]
 
 \* ---- the operations as functions of (memo m, "synth already computed" flag) -> [v |-> outcome, m |-> memo']
-OpAt(m, r, p) == Ev(Heap, r, IF ResetOnAt THEN Reset(Heap, r, m) ELSE m, p)
+OpAt(m, r, p) == IF ResetAfterWalk
+                 THEN LET x == Ev(Heap, r, m, p) IN IF IsErr(x.v) THEN x ELSE R(x.v, Reset(Heap, r, x.m))
+                 ELSE Ev(Heap, r, IF ResetOnAt THEN Reset(Heap, r, m) ELSE m, p)
 OpAtNum(m, r, x) == IF Cardinality(HVars(Heap, r)) >= 2 THEN R(PyErr("Exception"), m)
                     ELSE OpAt(m, r, NumberPoint(Heap, r, x))
 \* evaluate a handed-out symbolic expression S at p (its own fresh nodes; embedded pool nodes are re-evaluated at the same p)
